@@ -96,6 +96,15 @@ def gen_cases(rng, tier):
             n = rng.choice([0, 1, 2, 3, 5, 8, 9, 10, 16, 17, 24, 32, 33])
             bits = rand_bits(rng, n)
             yield {'op': 'program', 'cls': rng.choice(MUTABLE), 'bits': bits, 'steps': [gen_step(rng, n, tier, op, bits)]}
+    # store adoption: an EMPTY object takes an operand given as a literal, is edited in place, and the same literal is used again
+    for _ in range(40 if tier == 'quick' else 600):
+        lit = rand_bits(rng, rng.choice([4, 8, 12, 16]), 'rand')
+        first = rng.choice(['prepend', 'append', 'insert', 'overwrite'])
+        edits = [rng.choice([{'op': 'invert', 'pos': None}, {'op': 'set', 'pos': 0, 'v': 1}, {'op': 'set', 'pos': -1, 'v': 0}, {'op': 'reverse', 'start': None, 'end': None},
+                             {'op': 'setitem', 'key': 0, 'val': {'int': 1}}, {'op': 'ilshift', 'n': 1}, {'op': 'rol', 'n': 1, 'start': None, 'end': None}]) for _ in range(rng.randrange(1, 3))]
+        again = rng.choice(['append', 'prepend', 'insert', 'overwrite', 'ior'])
+        mk = lambda o: dict({'op': o, 'bs': lit, 'lit': True}, **({'pos': 0} if o in ('insert', 'overwrite') else {}))
+        yield {'op': 'program', 'cls': rng.choice(MUTABLE), 'bits': '', 'steps': [mk(first)] + edits + [mk(again)], 'lsb0_note': None}
     # set / invert over every boundary range(start, stop, step) of one short content (the range fast path vs the per-position loop)
     for n in ([6] if tier == 'quick' else [1, 6, 9]):
         bv = sorted({-n - 1, -n, -1, 0, 1, n - 1, n, n + 1, n + 2})
@@ -128,7 +137,9 @@ def apply_impl(s, st):
     """apply one step to the implementation object; returns the method's return value (canonical)"""
     import bitstring
     op = st['op']
-    B = lambda x: s if st.get('self_') else bitstring.Bits(bin=x)
+    # the operand: the object itself, a fresh Bits, or (lit) the literal string '0b...' - which goes through the string-parse cache, so that
+    # a mutator that adopts its operand's store instead of copying it shows up when the same literal is used again
+    B = lambda x: s if st.get('self_') else (('0b' + x) if st.get('lit') and x else bitstring.Bits(bin=x))
     if op == 'insert': return s.insert(B(st['bs']), st['pos'])
     if op == 'overwrite': return s.overwrite(B(st['bs']), st['pos'])
     if op == 'append': return s.append(B(st['bs']))
